@@ -29,11 +29,12 @@ Definition np_agree (r : nbrow) : bool :=
   else false.
 
 (* result backend: a NumPy vector array whenever a counted operand is a NumPy array (every row has one), except rotate_axis
-   with an object vector and a NumPy axis (the axis is a secondary argument: the result stays an object vector) *)
+   with an object vector and a NumPy axis (the axis is a secondary argument: the result stays an object vector) and integer
+   indexing a[i], which yields the object vector of element i *)
 Definition np_backend_ok (r : nbrow) : bool :=
   let '((f, n, s), np, py) := r in
   match np with
-  | OutVec _ _ _ flag => Bool.eqb flag (negb (Pos.eqb n N_rotate_axis__on))
+  | OutVec _ _ _ flag => Bool.eqb flag (negb (Pos.eqb n N_rotate_axis__on || Pos.eqb n N_index0))
   | _ => true end.
 
 Definition np_agree_on (names : list name) : bool :=
